@@ -34,6 +34,104 @@ def one_step(g, fix_first=False):
     return chi2, {v.id: d for v, d in zip(g._vertices, GC.code_dx(old, g))}
 
 
+def full_runs(run, rnd):
+    """Code-vs-code: complete optimize() runs (library defaults) on several representations of the same physical graph."""
+    import copy
+    import math
+    from graphslam.graph import Graph
+    from graphslam.vertex import Vertex
+    from graphslam.edge.edge_odometry import EdgeOdometry
+    from .. import graphs
+    thorough = run.tier == 'thorough'
+    n = 0
+    for kind in ('SE2', 'SE3', 'R2', 'R3'):
+        for rep in range(5 if thorough else 2):
+            seed = rnd.randrange(10 ** 6)
+            es0, vs0, _ = graphs.make(kind, seed, n_poses=6, n_landmarks=2, closures=3, noise=0.03, cross=True)
+
+            def fresh():
+                return copy.deepcopy(es0), copy.deepcopy(vs0)
+
+            def run_graph(es, vs, **kw):
+                g = Graph(es, vs)
+                with contextlib.redirect_stdout(io.StringIO()):
+                    r = g.optimize(verbose=False, **kw)
+                return g, r
+            es, vs = fresh()
+            gb, rb = run_graph(es, vs)
+            base = {v.id: np.array(v.pose) for v in gb._vertices}
+            variants = []
+            # relabelled ids (non-monotonic, negative, huge), library defaults (fix_first_pose=True fixes the first LISTED vertex)
+            for name, f in (('relabel-ids', lambda i: (-1) ** i * (3 * i + 1)), ('relabel-ids', lambda i: 2 ** 40 - 7 * i)):
+                es, vs = fresh()
+                for v in vs:
+                    v.id = f(v.id)
+                for e in es:
+                    e.vertex_ids = [f(i) for i in e.vertex_ids]
+                variants.append((name, es, vs, {}, f, 1.0))
+            # permuted vertex and edge lists, keeping the same vertex fixed
+            es, vs = fresh()
+            vs[0].fixed = True
+            rnd.shuffle(vs)
+            rnd.shuffle(es)
+            variants.append(('permute-lists', es, vs, dict(fix_first_pose=False), lambda i: i, 1.0))
+            # information scaled by exact powers of two (decisions of the stopping rule are then bitwise the same) and by 1000
+            for sc in (2.0 ** -30, 2.0 ** 10, 1000.0):
+                es, vs = fresh()
+                for e in es:
+                    e.information = e.information * sc
+                variants.append(('scale-information', es, vs, {}, lambda i: i, sc))
+            # an edge split into two halves
+            es, vs = fresh()
+            e0 = es[1]
+            e0.information = e0.information * 0.5
+            es.insert(3, copy.deepcopy(e0))
+            variants.append(('split-edge', es, vs, {}, lambda i: i, 1.0))
+            if kind == 'SE3':
+                es, vs = fresh()
+                for j, v in enumerate(vs):
+                    if j % 2 == 1 and len(v.pose) == 7:
+                        v.pose[3:] = -v.pose[3:]
+                for j, e in enumerate(es):
+                    if j % 3 == 0 and isinstance(e, EdgeOdometry):
+                        e.estimate[3:] = -e.estimate[3:]
+                    if hasattr(e, 'offset') and j % 2 == 0:
+                        e.offset[3:] = -e.offset[3:]
+                variants.append(('negate-quaternions', es, vs, {}, lambda i: i, 1.0))
+            if kind == 'SE2':
+                es, vs = fresh()
+                for j, v in enumerate(vs):
+                    if len(v.pose) == 3:
+                        v.pose[2] += 2 * math.pi * ((j % 5) - 2)       # in-place: the stored angle is outside [-pi, pi]
+                variants.append(('shift-2pi', es, vs, {}, lambda i: i, 1.0))
+            for name, es, vs, kw, f, sc in variants:
+                n += 1
+                key = dict(part='full-run', variant=name, kind=kind)
+                try:
+                    g, r = run_graph(es, vs, **kw)
+                except Exception as ex:  # noqa
+                    run.violation(dict(key, outcome='raised'), '%s: %r (fixture %s seed %d)' % (name, ex, kind, seed), dict(kind=kind, seed=seed, variant=name))
+                    continue
+                worst = 0.0
+                for v in g._vertices:
+                    want = [b for i, b in base.items() if f(i) == v.id][0]
+                    d = np.array(v.pose) - want
+                    nd = B.DIM[B.KIND_OF[type(v.pose)]]
+                    dev = float(np.max(np.abs(d[:nd])))
+                    if len(d) == 7:
+                        dev = max(dev, min(float(np.max(np.abs(d[3:]))), float(np.max(np.abs(np.array(v.pose)[3:] + want[3:])))))
+                    elif len(d) == 3 and nd == 2:
+                        dev = max(dev, abs((d[2] + math.pi) % (2 * math.pi) - math.pi))
+                    worst = max(worst, dev)
+                run.count(key=('full', kind, seed, name, sc), nontrivial=True)
+                if worst > 1e-6 or not (abs(r.final_chi2 - sc * rb.final_chi2) <= 1e-6 * sc * (1 + abs(rb.final_chi2))):
+                    run.violation(dict(key, outcome='different-result'),
+                                  '%s: optimize() result differs from the base representation: max pose deviation %.3g, final chi2 %r vs %g x %r, iterations %r vs %r (fixture %s seed %d)' % (
+                                      name, worst, r.final_chi2, sc, rb.final_chi2, r.num_iterations, rb.num_iterations, kind, seed), dict(kind=kind, seed=seed, variant=name, scale=sc))
+    run.notes['full_optimize_variant_runs'] = n
+    run.replayed += n
+
+
 def check(run, cases=None):
     cases = cases if cases is not None else gen(run.tier, run.seed)
     pairs = c03.evaluate(run, cases, 'MC_C08', conventions=('canon',))
@@ -121,6 +219,7 @@ def check(run, cases=None):
         if run.replayed % 13 == 1:
             run.sample(dict(case=c, exact_chi2=chi2, exact_step={str(k): v.tolist() for k, v in exp.items()}, variants=[v[0] for v in variants]))
     run.notes['variants_run'] = kinds_of_variant
+    full_runs(run, rnd)
     run.rule = ('for every lattice graph TLC evaluates chi^2 and the reduced normal equations ONCE with the physical semantics (rotation = {q,-q}, angle mod '
                 '2pi, graph = multiset of edges over vertices keyed by id); every representation of it (vertex / edge list permutations, id relabelling incl. '
                 'negative and > 2^32, 2*pi*m shifts, sign patterns of vertex / measurement / offset quaternions, an edge split into two halves, information '
